@@ -52,10 +52,17 @@ TRUSTED = []
 
 
 def tasks(tier):
-    return ['zones', 'wiring', 'inlet', 'outlet', 'mirror', 'canary']
+    # the hand-over uses ParticleArray.extract_particles / remove_particles /
+    # align_particles: their contracts (C06) are re-proved here
+    return ['zones', 'wiring', 'inlet', 'outlet', 'mirror', 'canary',
+            'dep:C06:extract', 'dep:C06:remove', 'dep:C06:align',
+            'dep:C06:add']
 
 
 def run_task(task, ctx):
+    if task.startswith('dep:'):
+        from contracts import deps
+        return deps.run_dep(task, ctx)
     repo = Repo()
     m = repo.module(MOD)
     if task == 'zones':
